@@ -3,14 +3,14 @@
 //!   lzverif exec <area> <cmdfile> <outdir>       execute the given command lines (corpus, replay)
 //! Output: cases.txt (commands for the model driver), impl.txt (implementation observations),
 //! oracle.txt (verdict of the property's own oracle on the implementation), dist.json.
-mod a_delta;
-mod a_lzipdict;
 mod reflib;
 mod util;
+mod areas {
+    include!(concat!(env!("OUT_DIR"), "/areas_gen.rs"));
+}
 
+use areas::AREAS;
 use util::*;
-
-const AREAS: &[Area] = &[a_delta::AREA, a_lzipdict::AREA];
 
 fn main() {
     std::panic::set_hook(Box::new(|_| {}));
